@@ -1,7 +1,7 @@
 //! Failing-input search, part 2: transfer curves (C03, C10), XYB (C04, C05), primaries (C06), HSL (C17), math (C18).
 use crate::exec::*;
 use crate::gen::{any_floats, unit_floats, Rng, CP11, TC14};
-use crate::oracle::Report;
+use crate::oracle::{piecewise, piecewise_try, Px, Report};
 use rayon::prelude::*;
 use yuvxyb::*;
 
@@ -9,16 +9,14 @@ fn hx(x: f32) -> String { format!("{:08x}", x.to_bits()) }
 
 pub fn lin(t: TransferCharacteristic, v: &[f32]) -> Result<Vec<f32>, ConversionError> {
     let data: Vec<[f32; 3]> = v.chunks(3).map(|c| [c[0], *c.get(1).unwrap_or(&0.0), *c.get(2).unwrap_or(&0.0)]).collect();
-    let w = data.len();
-    let l = LinearRgb::try_from(Rgb::new(data, w, 1, t, ColorPrimaries::BT709).unwrap())?;
+    let l = Px(piecewise_try(&data, &|d, w, h| LinearRgb::try_from(Rgb::new(d, w, h, t, ColorPrimaries::BT709).unwrap()).map(|l| l.into_data()))?);
     let mut out: Vec<f32> = l.data().iter().flat_map(|p| p.iter().copied()).collect();
     out.truncate(v.len());
     Ok(out)
 }
 pub fn gam(t: TransferCharacteristic, v: &[f32]) -> Result<Vec<f32>, ConversionError> {
     let data: Vec<[f32; 3]> = v.chunks(3).map(|c| [c[0], *c.get(1).unwrap_or(&0.0), *c.get(2).unwrap_or(&0.0)]).collect();
-    let w = data.len();
-    let r = Rgb::try_from((LinearRgb::new(data, w, 1).unwrap(), t, ColorPrimaries::BT709))?;
+    let r = Px(piecewise_try(&data, &|d, w, h| Rgb::try_from((LinearRgb::new(d, w, h).unwrap(), t, ColorPrimaries::BT709)).map(|r| r.into_data()))?);
     let mut out: Vec<f32> = r.data().iter().flat_map(|p| p.iter().copied()).collect();
     out.truncate(v.len());
     Ok(out)
@@ -136,8 +134,9 @@ pub fn c04_c05(prop: &str, seed: u64, budget: usize) -> Report {
         // the image ends with signed (admissible) pixels, so that whatever tail a blocked implementation handles separately
         // contains pixels with negative opsin mixes
         if prop == "C04" { for j in 0..19usize { px.push(match j % 3 { 0 => [-1.0, -1.0, -1.0], 1 => [1.0, 1.0, -1.0], _ => [-0.5, -0.25, -1.0] }); } }
-        let xyb = Xyb::from(LinearRgb::new(px.clone(), px.len(), 1).unwrap());
-        if xyb.width() != px.len() || xyb.height() != 1 { rep.fail("dimensions not preserved", "xyb".into(), "".into(), "".into()); }
+        { let n7 = px.len().min(7); let x7 = Xyb::from(LinearRgb::new(px[..n7].to_vec(), n7, 1).unwrap());
+          if x7.width() != n7 || x7.height() != 1 { rep.fail("dimensions not preserved", "xyb".into(), "".into(), "".into()); } }
+        let xyb = Px(piecewise(&px, &|d, w, h| { let x = Xyb::from(LinearRgb::new(d, w, h).unwrap()); if x.width() != w || x.height() != h { vec![] } else { x.into_data() } }));
         rep.evaluated += px.len() as u64;
         if prop == "C04" {
             for (p, o) in px.iter().zip(xyb.data().iter()) {
@@ -148,7 +147,7 @@ pub fn c04_c05(prop: &str, seed: u64, budget: usize) -> Report {
                     if !(d <= 2e-6) { rep.fail("XYB differs from the libjxl opsin definition", format!("xyb {} {} {}", hx(p[0]), hx(p[1]), hx(p[2])), format!("{:?}", o), format!("{:?}", e)); } }
             }
         } else {
-            let back = LinearRgb::from(xyb);
+            let back = Px(piecewise(xyb.data(), &|d, w, h| LinearRgb::from(Xyb::new(d, w, h).unwrap()).into_data()));
             for (p, o) in px.iter().zip(back.data().iter()) {
                 for k in 0..3 { let d = (o[k] as f64 - p[k] as f64).abs(); rep.note("xyb round trip", d, 5e-5);
                     if !(d <= 5e-5) { rep.fail("XYB->linear RGB does not invert the forward transform", format!("xyb {} {} {}", hx(p[0]), hx(p[1]), hx(p[2])), format!("{:?}", o), format!("{:?}", p)); } }
@@ -199,8 +198,8 @@ pub fn ref_prim(pin: &str, pout: &str) -> M {
     mmul(&mmul(&minv(&rgb2xyz(pout)), &ad), &rgb2xyz(pin))
 }
 fn prim_api(p: ColorPrimaries, to709: bool, px: &[[f32; 3]]) -> Vec<[f32; 3]> {
-    if to709 { LinearRgb::try_from(Rgb::new(px.to_vec(), px.len(), 1, TransferCharacteristic::Linear, p).unwrap()).unwrap().into_data() }
-    else { Rgb::try_from((LinearRgb::new(px.to_vec(), px.len(), 1).unwrap(), TransferCharacteristic::Linear, p)).unwrap().into_data() }
+    if to709 { piecewise(px, &|d, w, h| LinearRgb::try_from(Rgb::new(d, w, h, TransferCharacteristic::Linear, p).unwrap()).unwrap().into_data()) }
+    else { piecewise(px, &|d, w, h| Rgb::try_from((LinearRgb::new(d, w, h).unwrap(), TransferCharacteristic::Linear, p)).unwrap().into_data()) }
 }
 pub fn c06(seed: u64, budget: usize) -> Report {
     let parts: Vec<Report> = CP11.par_iter().enumerate().map(|(pi, &pn)| {
@@ -261,8 +260,8 @@ pub fn c17(seed: u64, budget: usize) -> Report {
             let o = Hsl::from(LinearRgb::new(vec![base], 1, 1).unwrap()).data()[0];
             if o.iter().all(|c| *c >= 0.0 && *c <= 1.0) { px.push(base); px.push(o); px.push(base); }
         }
-        let h = Hsl::from(LinearRgb::new(px.clone(), px.len(), 1).unwrap());
-        let back = LinearRgb::from(Hsl::new(h.data().to_vec(), px.len(), 1).unwrap());
+        let h = Px(piecewise(&px, &|d, w, hh| Hsl::from(LinearRgb::new(d, w, hh).unwrap()).into_data()));
+        let back = Px(piecewise(h.data(), &|d, w, hh| LinearRgb::from(Hsl::new(d, w, hh).unwrap()).into_data()));
         rep.evaluated += px.len() as u64;
         for i in 0..px.len() {
             let o = h.data()[i]; let (rh, rs, rl) = ref_hsl(px[i]); let line = format!("hsl {} {} {}", hx(px[i][0]), hx(px[i][1]), hx(px[i][2]));
@@ -277,7 +276,7 @@ pub fn c17(seed: u64, budget: usize) -> Report {
         // L = 0 is black, L = 1 is white
         let mut q = Vec::new();
         for _ in 0..(n / 4 + 1) { let hh = { let h = r.unit() * 360.0; if h >= 360.0 { 0.0 } else { h } }; q.push([hh, r.unit(), 0.0]); q.push([hh, r.unit(), 1.0]); q.push([hh, 1.0, 0.0]); q.push([hh, 1.0, 1.0]); }
-        let o = LinearRgb::from(Hsl::new(q.clone(), q.len(), 1).unwrap());
+        let o = Px(piecewise(&q, &|d, w, hh| LinearRgb::from(Hsl::new(d, w, hh).unwrap()).into_data()));
         rep.evaluated += q.len() as u64;
         for i in 0..q.len() { let e = q[i][2]; if o.data()[i].iter().any(|c| *c != e) { rep.fail("L=0/1 is not black/white", format!("ihsl {} {} {}", hx(q[i][0]), hx(q[i][1]), hx(q[i][2])), format!("{:?}", o.data()[i]), format!("{}", e)); } }
         rep
